@@ -181,3 +181,60 @@ PROPS = {
         explanation='lengths 0..1024 are enumerated completely in both tiers; the Paris sequence domain (2^16) is enumerated completely in the thorough tier; contents and addresses are sampled',
     ),
 }
+
+
+def compare_c11(inp, impl_out, model_out):
+    """identical op list and result; an implementation panic and a model fault compare as `fault`"""
+    return norm_fault(impl_out) == norm_fault(model_out)
+
+
+def c11_nontrivial(inp, outp):
+    # a case in which something was put on the wire / handed to connect
+    return 'sendto:' in outp or 'connect:' in outp or inp.startswith('c11fill')
+
+
+PROPS['C11'] = dict(
+    crates=['hcore'], modes=[('hcore', 'c11')],
+    nontrivial=c11_nontrivial, compare=compare_c11,
+    rule='real Channel<recording Socket> (Channel::connect + send_probe -> net/ipv4.rs / net/ipv6.rs -> trippy-packet): '
+         '12 cells (ICMP, UDP classic / Paris / Dublin privileged, UDP unprivileged, TCP) x IPv4/IPv6; every packet size 0..1030 for ICMP/IPv4 '
+         '(thorough: for 7 cells), boundary sizes {0, min-1, min, min+1, 60, 61, 84, 1023, 1024, 1025, 65535} elsewhere; complete tos / pattern / ttl '
+         'domains 0..255; boundary + random sequences, identifiers, ports, addresses (all-ones / zero / loopback / random); Paris with carry-maximising '
+         'addresses and ports (thorough: all 65536 sequences x 2 families); Dublin/IPv6 every payload length 0..972; every socket call kind x 12 error '
+         'codes injected (raw EINPROGRESS / EHOSTUNREACH / ENETUNREACH and io::ErrorKinds); n consecutive TCP probes on one channel. '
+         'Observable: rendered socket-operation list | result.  Oracle: RFC 791/792/768/4443/8200 bit-offset decoder in Rust (no trippy-packet). '
+         'non-trivial = a send_to or connect happened; distinct = distinct input line',
+    exhaustive={'quick': False, 'thorough': False},
+    explanation='packet sizes, tos, pattern, ttl and Dublin/IPv6 payload lengths are enumerated completely (for the cells named in the rule); '
+                'sequences / ports / addresses are sampled (Paris sequences completely in the thorough tier)',
+    assumptions=['Ipv4ByteOrder::Host (non-Linux unixes) is modelled and proved (c11_host_byte_order, c11_adjust_length) but NOT tied to code: the variant does not exist in a Linux build',
+                 'the IPv6 header itself is written by the kernel from the socket options; the model covers what the code hands to the socket (hop limit, upper-layer bytes, address)',
+                 'Dublin/IPv6 theorems assume 0 <= sequence - initial_sequence and payload + 6 <= 976, which C07 proves for every probe the strategy issues'],
+)
+
+
+def c12_nontrivial(inp, outp):
+    t = toks(inp)
+    if t[0] in ('new', 'new_view'):
+        return True
+    # accessor on a buffer with pre-existing non-zero content: where a wrong mask / shift becomes visible
+    return t[-1].strip('0') != ''
+
+
+PROPS['C12'] = dict(
+        crates=['hcore'], modes=[('hcore', 'c12')],
+        nontrivial=c12_nontrivial,
+        rule='every get_/set_ pair (88) of the 17 packet types with scalar fields x base buffers (all zeros, all 0xFF, random of minimum size, random '
+             'longer than the minimum, every single-bit and single-hole pattern within one octet of the field) x argument values '
+             '(quick: boundary values of the Rust argument type incl. 2^w, 2^w+1, excess-bits-only, every single bit + 120 random; '
+             'thorough: all 2^8 values for u8 / enum arguments on every base, all 2^16 values for u16 arguments on one random base per field, '
+             'boundary + 2000 random for u32 / address arguments); '
+             'getters also on field contents planted into a random background (thorough: exhaustive for fields up to 12 bits wide; the 16-bit '
+             'fields are read back on all 2^16 contents after the exhaustive set sweep); '
+             'new / new_view of all 19 packet types for every length 0..min+8. '
+             'oracle: independent RFC (bit offset, width) table + bit-slice reader in the harness. '
+             'non-trivial = accessor case on a buffer that is not all zeros, or a construction case; distinct = distinct input line',
+        exhaustive={'quick': False, 'thorough': False},
+        explanation='thorough enumerates the complete argument domain of every u8 / u16 / enum setter (and so every content of every field up to 16 bits), '
+                    'but buffers and 32 / 128-bit values are sampled; the for-all-buffers statement is carried by the Coq theorems',
+    )
